@@ -407,6 +407,9 @@ func (e *Eng) verifyFunc(fn *ssa.Function, sp *FuncSpec, known *knownFindings) *
 					ok = false
 					break
 				}
+				if guardExcluded(f, rc.st.eqFacts) {
+					continue // the clause's guard names another constant than the one this return path has branched on
+				}
 				part := &Obligation{Name: parent.Name, Kind: "ensures", Func: sp.Name, Text: c.Text, prefixLen: len(r.script), goal: implies(rc.st.reach, f), run: r, clause: c}
 				if kf != nil {
 					if ex, err := rc.ecx.boolExpr(kf.except); err == nil {
@@ -517,4 +520,83 @@ func (e *Eng) localVarType(fn *ssa.Function, name string) types.Type {
 		}
 	}
 	return found
+}
+
+// guardExcluded: f is (=> G B) and G has a top-level conjunct (= T n) while the path is known to have T = m, m != n.
+// Such a goal is trivially valid; it is not generated.
+func guardExcluded(f string, facts map[string]string) bool {
+	if len(facts) == 0 || !strings.HasPrefix(f, "(=> ") {
+		return false
+	}
+	args := sexprArgs(f)
+	if len(args) != 3 {
+		return false
+	}
+	var conj []string
+	var walk func(g string)
+	walk = func(g string) {
+		if strings.HasPrefix(g, "(and ") {
+			for _, a := range sexprArgs(g)[1:] {
+				walk(a)
+			}
+			return
+		}
+		conj = append(conj, g)
+	}
+	walk(args[1])
+	for _, g := range conj {
+		if !strings.HasPrefix(g, "(= ") {
+			continue
+		}
+		a := sexprArgs(g)
+		if len(a) != 3 {
+			continue
+		}
+		for _, pr := range [][2]string{{a[1], a[2]}, {a[2], a[1]}} {
+			if m, ok := facts[pr[0]]; ok {
+				if _, isNum := numeral(pr[1]); isNum && pr[1] != m {
+					return true
+				}
+			}
+		}
+	}
+	return false
+}
+
+// sexprArgs splits "(op a b ...)" into [op a b ...] at the top level.
+func sexprArgs(s string) []string {
+	if len(s) < 2 || s[0] != '(' || s[len(s)-1] != ')' {
+		return nil
+	}
+	s = s[1 : len(s)-1]
+	var out []string
+	depth, start := 0, -1
+	for i := 0; i < len(s); i++ {
+		switch s[i] {
+		case '(':
+			if depth == 0 && start < 0 {
+				start = i
+			}
+			depth++
+		case ')':
+			depth--
+			if depth == 0 {
+				out = append(out, s[start:i+1])
+				start = -1
+			}
+		case ' ', '\n':
+			if depth == 0 && start >= 0 {
+				out = append(out, s[start:i])
+				start = -1
+			}
+		default:
+			if depth == 0 && start < 0 {
+				start = i
+			}
+		}
+	}
+	if start >= 0 {
+		out = append(out, s[start:])
+	}
+	return out
 }
